@@ -94,6 +94,9 @@ func ReadBucketMeta(name string) (bucketMeta *BucketMeta, err error) {
 
 	// read start
 	off += BucketMetaHeaderSize
+	if err = checkFits(fd, off, int64(startSize)+int64(endSize)); err != nil {
+		return nil, err
+	}
 	startBuf := make([]byte, startSize)
 	if _, err = fd.ReadAt(startBuf, off); err != nil {
 		return nil, err
